@@ -1330,6 +1330,9 @@ class CallMixin:
             self.effect("warn", site, st, fr, node=n, callee=q)
         elif cat == "unknown":
             self.effect("extcall-unknown", site, st, fr, node=n, callee=q)
+        elif cat == "mutate" and q in ("numpy.putmask", "numpy.place", "numpy.copyto") and \
+                self._masked_store_call(q, pos, kw, st, fr, site):
+            return self.const(None, site)
         elif cat == "mutate":
             self.effect("write", site, st, fr, node=pos[0] if pos else n,
                         roots=self.roots(pos[0]) if pos else [], idx=None, value=n, how=q)
@@ -1337,6 +1340,36 @@ class CallMixin:
                 st.cur[pos[0].id] = n           # the argument's contents after the call
                 self._propagate_view_write(pos[0], n, st, site)
         return n
+
+    def _masked_store_call(self, q, pos, kw, st, fr, site) -> bool:
+        """np.place(a, m, v) is a[m] = v (v handed out in mask order); np.putmask(a, m, v) and np.copyto(a, v, where=m)
+        take v AT the masked positions (a[m] = v[m] for a full-size v): the same store, marked 'aligned_values'"""
+        names = {"numpy.putmask": ("a", "mask", "values"), "numpy.place": ("arr", "mask", "vals"),
+                 "numpy.copyto": ("dst", "src")}[q]
+        args = dict(zip(names, pos))
+        if len(pos) > len(names):
+            return False
+        for k, v in kw.items():
+            if k in args or (k not in names and not (q == "numpy.copyto" and k == "where")):
+                return False
+            args[k] = v
+        if any(k not in args for k in names):
+            return False
+        tgt = args[names[0]]
+        if q == "numpy.copyto":
+            idx = args.get("where")
+            val = args["src"]
+            if idx is None or (idx.op == "Const" and idx.attr is True):
+                idx = self.const(Ellipsis, site)
+        else:
+            idx, val = args[names[1]], args[names[2]]
+        before = st.cur.get(tgt.id)
+        self.write(tgt, idx, val, st, fr, site, None)
+        new = st.cur.get(tgt.id)
+        if q != "numpy.place" and new is not None and new is not before and new.op == "Scatter" and \
+                not (idx.op == "Const" and idx.attr is Ellipsis):
+            new.extra = dict(new.extra or {}, aligned_values=True)
+        return True
 
     def _phi_tuple_len(self, v):
         if v.op == "Phi":
